@@ -109,8 +109,19 @@ ERR_STMT = {
     # TWO errors in one candidate scan (two heads of the faulty flow / the faulty flow and a child flow): one report each
     "match-and-both": ["match M(x=$nope.value) and M(x=less_than(3))"],
     "match-child-both": ["start helper_e", "match M(x=$nope.value)"],
+    # errors raised OUTSIDE every try block of the pinned tree (open findings error-raised-while-handling-match /
+    # error-raised-by-head-advance-outside-try / error-raised-while-processing-internal-event; contained once fixes/C10-handle-match-
+    # error-contained.diff, C10-head-advance-inside-try.diff, C10-startflow-requires-flow-id.diff are applied): too many positional
+    # parameters in the start of a flow (_start_flow, called from _handle_event_matching); a match statement whose event NAME cannot be
+    # computed, directly behind a waiting statement (`head.position += 1` of _advance_head_front fires the head-changed callback before
+    # the try block starts; behind a non-waiting statement the same statement is reached inside slide and contained); an internal
+    # StartFlow event without flow_id (KeyError in _process_internal_events_without_default_matchers)
+    "start-too-many-args": ["await helper_p(1, 2, 3)"],
+    "match-bad-action-event": ['match UtteranceBotAction(script="a").Nope()'],
+    "send-startflow-no-id": ["send StartFlow()"],
 }
 ERR_FLOWS = {
+    "start-too-many-args": ["flow helper_p $a", "  match NeverHP()", ""],
     "match-child": ["flow helper_m", "  match M()", "  match NeverH()", ""],
     "match-child-await": ["flow helper_m", "  match M()", "  match NeverH()", "", "flow helper_m2", "  match M(x=\"str\")", "  match NeverH()", ""],
     "match-grandchild": ["flow helper_m", "  match M()", "  match NeverH()", "", "flow helper_g", "  start helper_m", "  match M() and M(x=\"str\")", "  match NeverH()", ""],
@@ -404,6 +415,8 @@ def worker_init():
         "push_left": sm._push_left_internal_event,
         "abort": sm._abort_flow,
         "finish": sm._finish_flow,
+        "start_flow": sm._start_flow,
+        "create_ref": sm._create_event_reference,
     }
     rm.init()
     install()
@@ -466,7 +479,15 @@ def install():
                     rec["evals"].append([])
         if _R.round is not None:
             _R.round.moved(head)
-        return O["head_changed"](state, flow_state, head)
+        try:
+            return O["head_changed"](state, flow_state, head)
+        except Exception as e:  # noqa  -- the event name of the match statement the head arrived at could not be computed
+            if _R.cur is None and st is not None:
+                # raised by a position change OUTSIDE slide (head.position += 1 of _advance_head_front): the error of this instance
+                st["errs"].append([flow_state.uid, flow_state.flow_id, "advance", type(e).__name__])
+            if _R.round is not None:
+                _R.round.err_head = head.uid
+            raise
 
     def eval_w(expr, context):
         try:
@@ -570,6 +591,20 @@ def install():
             st["scan"]["scores"].append([flow_state.uid, head.uid, "pos" if s > 0.0 else ("neg" if s < 0.0 else "zero")])
         return s
 
+    def handling_w(name):
+        # _start_flow / _create_event_reference (called from _handle_event_matching): a raise here is an error of the matched head's flow
+        def w(state, flow_state, *a, **kw):
+            try:
+                return O[name](state, flow_state, *a, **kw)
+            except Exception as e:  # noqa
+                st = _R.st
+                if st is not None:
+                    st["errs"].append([flow_state.uid, flow_state.flow_id, "handle", type(e).__name__])
+                if _R.round is not None and flow_state.heads:
+                    _R.round.err_head = next(iter(flow_state.heads.values())).uid
+                raise
+        return w
+
     def rtc_w(state, ev):
         st = _R.st
         rc = _R.round_ctx
@@ -584,6 +619,11 @@ def install():
         except Exception as e:  # noqa
             if st is not None:
                 st["rtc_exc"].append(type(e).__name__)
+                try:  # where it was raised: the statemachine functions on the stack, outermost first (structural signature of findings)
+                    import traceback as _tb
+                    st["rtc_site"].append([f.name for f in _tb.extract_tb(e.__traceback__) if f.filename.endswith("statemachine.py")][:6])
+                except Exception:  # noqa
+                    pass
             raise
         finally:
             _R.round = None
@@ -604,6 +644,8 @@ def install():
     sm._push_internal_event = push_w
     sm._push_left_internal_event = push_left_w
     sm._abort_flow = abort_w
+    sm._start_flow = handling_w("start_flow")
+    sm._create_event_reference = handling_w("create_ref")
     sm._finish_flow = finish_w
 
 
@@ -669,7 +711,7 @@ def run_impl(case):
     signal.signal(signal.SIGVTALRM, _vt_alarm)
     for ev in case["events"]:
         st = {"slides": 0, "moves": 0, "ievents": 0, "colang_errors": 0, "rtc_exc": [], "samples": [], "scans": [], "scan": None,
-              "over_bound": [], "max_iter_ratio": 0.0, "budget": 10 ** 9, "rounds": [], "errs": [], "failed_uids": [], "failed_flows": []}
+              "over_bound": [], "max_iter_ratio": 0.0, "budget": 10 ** 9, "rounds": [], "errs": [], "failed_uids": [], "failed_flows": [], "rtc_site": []}
         st["budget"] = BUDGET_FACTOR * (sum(len(p) for p in progs.values()) + 10)
         _R.st = st
         call = {"event": ev["type"], "out": [], "pe_exc": None, "budget_hit": None}
@@ -686,7 +728,7 @@ def run_impl(case):
             signal.setitimer(signal.ITIMER_VIRTUAL, 0)
             _R.st = None
             _R.cur = None
-        call.update({k: st[k] for k in ("slides", "moves", "ievents", "colang_errors", "rtc_exc", "max_iter_ratio")})
+        call.update({k: st[k] for k in ("slides", "moves", "ievents", "colang_errors", "rtc_exc", "rtc_site", "max_iter_ratio")})
         # every flow INSTANCE in which a statement raised: what became of it by the end of this call
         call["errs"] = len(st["errs"])
         call["failed_flows"] = sorted(set(st["failed_flows"]))
@@ -1078,6 +1120,18 @@ def signature(case, obs, msg):
             return "error-raised-while-matching"
     if "changed during _advance_head_front" in msg:
         return "frame:bystander-changed"
+    if "run_to_completion raised" in msg or "(advance phase)" in msg or "(handle phase)" in msg or \
+            ("ColangError event(s) were processed in that call" in msg and any(c.get("rtc_site") for c in obs.get("calls", []))):
+        # an exception left run_to_completion (the observer missed the event / the instance that raised was not failed / no ColangError
+        # was processed by the state machine): WHERE it was raised (outermost statemachine frames) is the structural signature
+        for c in obs.get("calls", []):
+            for site in c.get("rtc_site", []):
+                if "_handle_event_matching" in site:
+                    return "error-raised-while-handling-match"
+                if "_process_internal_events_without_default_matchers" in site:
+                    return "error-raised-while-processing-internal-event"
+                if "_advance_head_front" in site and "slide" not in site and ("position" in site or "_flow_head_changed" in site):
+                    return "error-raised-by-head-advance-outside-try"
     if "did not terminate within the step budget" in msg and meta.get("cascade"):
         return "activated-flow-fails-while-starting-by-pattern-failure"
     if "did not terminate within the step budget" in msg and meta["mode"] in ("active", "launcher") and meta["phase"] == "slide" \
